@@ -16,6 +16,7 @@ def main (args : List String) : IO UInt32 := do
   | ["engine-spec"] => loop stdin stdout EngineSpec.step {}; return 0
   | ["locktable-spec"] => loop stdin stdout LockSpec.step {}; return 0
   | ["formats-spec"] => loop stdin stdout EngineSpec.step {}; return 0
+  | ["snapsched-spec"] => loop stdin stdout EngineSpec.step {}; return 0
   | ["crash-spec"] => loop stdin stdout EngineSpec.step {}; return 0
   | ["import-spec"] => loop stdin stdout EngineSpec.step {}; return 0
   | ["replica-spec"] => loop stdin stdout EngineSpec.step {}; return 0
